@@ -35,7 +35,7 @@ def gen_scenarios(tier, seed):
     scs.append({"kind": "pool", "id": "repo-broadcast-10", "use": "broadcast",
                 "history": [{"n": 10, "panics": []}],
                 "schedule": {"source": "random", "seed": seed + 1, "switch": 500}})
-    n_random = 150 if tier == "quick" else 1500
+    n_random = 300 if tier == "quick" else 2500
     max_n = 3 if tier == "quick" else 6
     for k in range(n_random):
         hist = []
